@@ -25,3 +25,27 @@ def notes_rewrite_ref_copies_note_verbatim():
         return s.kinds()
     finally:
         s.destroy()
+
+
+def color_ui_always_hides_prompt_records_in_rebased_notes():
+    """D46 (fixed): color.ui=always; a rebase whose upstream inserted lines above the AI lines in the same file (full replay): the
+    rewritten note listed the session but had `"prompts": {}` because the coloured `git grep` output of the notes search was unparsable."""
+    class S(Script, Hist):
+        pass
+    s = S("d46", files=1)
+    try:
+        with open(s.w.gitconfig, "a") as f:
+            f.write("[color]\n\tui = always\n")
+        f0 = [s.line("human") for _ in range(5)]
+        s.human_write("f.txt", f0); s.commit_all("init")
+        s.g("checkout", "-q", "-b", "feat")
+        s.ai_write("S1", "f.txt", f0 + [s.line("S1"), s.line("S1")]); s.commit_all("feat")
+        s.g("checkout", "-q", "main")
+        s.human_write("f.txt", [s.line("human"), s.line("human")] + f0); s.commit_all("upstream")
+        s.g("checkout", "-q", "feat")
+        s.g("rebase", "main")
+        s.check_notes("w")
+        s.check_blame_tip("w", rule="C12")
+        return s.kinds()
+    finally:
+        s.destroy()
